@@ -364,7 +364,8 @@ def _describe(rec):
     if rec["api"] == "g1":
         return f"1D geometry w={rec['w']} scale {rec['s']}u origin {rec['o']}u tau={rec['tau']}"
     g, p = rec["g"], rec["par"]
-    return (f"Mask2D.{p['kind']} on {g['h']}x{g['w']} scales ({g['sy']},{g['sx']})u origin ({g['oy']},{g['ox']})u "
+    meth = {"annular": "circular_annular", "anti_annular": "circular_anti_annular"}.get(p["kind"], p["kind"])
+    return (f"Mask2D.{meth} on {g['h']}x{g['w']} scales ({g['sy']},{g['sx']})u origin ({g['oy']},{g['ox']})u "
             f"centre ({p['cy']},{p['cx']})u R2={p['r']} e1={_ell(p['e1'])} e2={_ell(p['e2'])} tau={rec['tau']}")
 
 
